@@ -1708,3 +1708,15 @@ TABLE["C04"] += [
     B("free-function-named-serialize-dropped", {"B12"}, (PW, "            function_name = function.name\n", "            function_name = function.name\n            if function_name == 'serialize':\n                continue\n")),
     N("free-function-scope-by-slice", (PW, "            idx = 1 if not namespaces[0] else 0\n            return '::'.join(namespaces[idx:] + [name])", "            scope = namespaces[1:] if not namespaces[0] else namespaces\n            return '::'.join(scope + [name])")),
 ]
+for _p, _r in (("C07", "V10"), ("C01", "G13")):
+    TABLE[_p] += [
+        B("base-clause-parsed-as-a-list-first-kept", {_r},
+          (IP + "classes.py", "from pyparsing import Literal, Optional, Word, alphas", "from pyparsing import Literal, Optional, Word, alphas, delimitedList"),
+          (IP + "classes.py", "    _parent = COLON + (TemplatedType.rule ^ Typename.rule)(\"parent_class\")", "    _parent = COLON + delimitedList(TemplatedType.rule ^ Typename.rule)(\"parent_class\")")),
+    ]
+TABLE["C07"] += [
+    B("namespace-walk-advances-only-for-named-scopes", {"V11"},
+      (IP + "utils.py", "        namespaces = [ancestor.name] + namespaces\n        ancestor = ancestor.parent", "        namespaces = [ancestor.name] + namespaces\n        if ancestor.parent != '':\n            ancestor = ancestor.parent")),
+    N("namespace-walk-with-explicit-break", (IP + "utils.py", "        namespaces = [ancestor.name] + namespaces\n        ancestor = ancestor.parent",
+                                            "        namespaces = [ancestor.name] + namespaces\n        if not ancestor.parent:\n            break\n        ancestor = ancestor.parent")),
+]
